@@ -2,7 +2,7 @@
    Statements only; proofs live in Runtime/ActorInv.v. *)
 From Coq Require Import List Arith.
 Import ListNotations.
-From IT Require Import Sdpl.IR Sdpl.Elab Sdpl.Wf Runtime.Actor Runtime.ActorInv.
+From IT Require Import Sdpl.IR Sdpl.Elab Sdpl.Wf Runtime.Actor Runtime.ActorInv Gen.Channel.
 
 Section C08.
 Context {A V : Type} (sem : nat -> A -> list V -> option (A * V)) (sem_slf : nat -> A -> list V -> V) (dv : V).
@@ -46,7 +46,18 @@ Theorem C08_unbounded_never_waits : forall (m : model), cap_of m = None ->
 Proof. intros m Hc s t cid k vs ab rm. exact (unbounded_never_waits sem sem_slf dv (elab m) s t cid k vs ab rm Hc). Qed.
 End C08.
 
+(* generator side: the option decides the capacity as documented; a family member inherits or overrides (0 included) *)
+Theorem C08_option_to_cap : forall opt, cap_of_chan (actor_chan opt) = spec_cap None opt.
+Proof. exact option_to_cap. Qed.
+Theorem C08_member_inherit_override : forall f m, cap_of_chan (member_chan f m) = spec_cap f m.
+Proof. exact member_inherit_override. Qed.
+Theorem C08_ctor_table : forall l c, l <> LibOther -> cap_of_ctor (mpsc_ctor l c) = cap_of_chan c.
+Proof. exact ctor_table. Qed.
+
 Print Assumptions C08_bound.
+Print Assumptions C08_option_to_cap.
+Print Assumptions C08_member_inherit_override.
+Print Assumptions C08_ctor_table.
 Print Assumptions C08_blocked_waits.
 Print Assumptions C08_unblocked_enqueues.
 Print Assumptions C08_not_lost.
